@@ -26,7 +26,8 @@ def check(prop, tier):
     cases = None
     for line in open(g["out"], errors="replace"):
         if line.startswith('<<"GEN", '):
-            cases = json.loads(json.loads(line.strip()[len('<<"GEN", '):-2]))["cases"]
+            gen = json.loads(json.loads(line.strip()[len('<<"GEN", '):-2]))
+            cases, long_cases = gen["cases"], gen["long"]
     if not cases:
         raise ToolError("DaemonGen printed no cases")
     rng = random.Random(seed())
@@ -35,10 +36,13 @@ def check(prop, tier):
     nosig = [c for c in cases if not c["signals"]]
     withsig = [c for c in cases if c["signals"]]
     chosen = nosig[: budget // 2] + withsig[: budget - min(len(nosig), budget // 2)]
+    for c in long_cases:
+        c["horizon"] = len(c["jobs"]) * max(60, c["period"]) + 200
+    chosen += long_cases
     cpath = os.path.join(wd, "cases.ndjson")
     with open(cpath, "w") as f:
         for k, c in enumerate(chosen):
-            c = dict(c); c["case"] = f"d{k}"; c["horizon"] = 4000
+            c = dict(c); c["case"] = f"d{k}"; c.setdefault("horizon", 4000)
             f.write(json.dumps(c) + "\n")
     trace = os.path.join(wd, "daemon.trace")
     run_harness("daemon", ["run", cpath, 14], trace, timeout=3000)
